@@ -140,6 +140,23 @@ func (ds *dataStore) flush(chunk int, force bool) error {
 	return nil
 }
 
+// flushAll writes out every chunk that still has buffered records. After a
+// rotation the old head is handed to a goroutine (see AppendRecord) that may
+// not have run yet, so flushing the head alone is not enough before exit.
+func (ds *dataStore) flushAll() {
+	ds.Lock()
+	head := ds.newHead
+	ds.Unlock()
+	for i := 0; i <= head; i++ {
+		ds.chunks[i].Lock()
+		n := len(ds.chunks[i].wbuf)
+		ds.chunks[i].Unlock()
+		if n > 0 {
+			ds.flush(i, true)
+		}
+	}
+}
+
 func (ds *dataStore) GetRecordByPos(pos Position) (res *Record, inbuffer bool, err error) {
 	return ds.chunks[pos.ChunkID].GetRecordByOffset(pos.Offset)
 }
